@@ -39,12 +39,16 @@ CONSTANTS Names,        \* set of names (byte strings)
           ArbAlpha,     \* alphabet of arbitrary strings
           ArbLen,       \* maximal length of arbitrary strings
           Modes,        \* subset of {"tok", "arb"}
+          LongReps,     \* values Rep(k), k \in LongReps, are also signed (identity tamper, one decode)
+          LongLens,     \* arbitrary inputs "1" x n followed by "|" / "|a|b", n \in LongLens (digit runs beyond int limits)
           W1, W2        \* number of hex digits of the v1 (SHA-1: 40) and v2 (SHA-256: 64) signature
 
 (* constant sets that a cfg file cannot express (sequences); selected with `Names <- NamesA` ... *)
 NamesA  == {<<110>>, <<110, 46>>}                                   \* "n", "n."
 NamesB  == {<<110>>, <<110, 46>>, <<110, 89>>, <<>>}                \* + "nY", ""
-ValuesA == {<<>>, <<97>>, <<97, 98, 99>>, <<215, 109, 248>>}        \* "", "a", "abc", b64 = "1234"
+ValuesA == {<<>>, <<97>>, <<97, 98, 99, 211, 77, 52>>, <<215, 109, 248>>}   \* "", "a", b64 = "YWJj0000", b64 = "1234"
+(* k repetitions of the three bytes whose base64 is "1234": a legitimate value with a long all-digit payload *)
+Rep(k) == [i \in 1..(3 * k) |-> <<215, 109, 248>>[((i - 1) % 3) + 1]]
 ValuesB == ValuesA \cup {<<97, 98>>, <<0, 255, 124, 58>>, <<215, 109, 248, 215, 109, 248>>}
 
 PIPE  == 124
@@ -169,6 +173,10 @@ Creates ==
         /\ c.ver = 1 => (~IsDict(c.scfg) /\ c.kv = 0)
         /\ IsDict(c.scfg) => c.kv \in DOMAIN SCfg(c.scfg).keys}
 
+MaxOf(S) == CHOOSE x \in S : \A y \in S : x >= y
+LongCreates == {[name |-> CHOOSE n \in Names : TRUE, value |-> Rep(k), t |-> MaxOf(Times), ver |-> v, scfg |-> 1, kv |-> 0] :
+                  k \in LongReps, v \in Versions}
+IsLong(c) == Len(c.value) > 100
 IsSig(x) == x >= 1000
 Pos(tok) == {i \in 1..Len(tok) : ~IsSig(tok[i]) \/ (tok[i] % 1000) \in SigPos}
 NoTam == [op |-> "id", i |-> 0, b |-> 0]
@@ -201,11 +209,12 @@ ShiftedName(name, tok, k) == IF k > 0 THEN name \o Take(tok, k) ELSE SubSeq(name
 ShiftedTok(name, tok, k)  == IF k > 0 THEN Drop(tok, k) ELSE SubSeq(name, Len(name) + k + 1, Len(name)) \o tok
 
 Nows(t, maxAge) == {t, t + maxAge * Day, t + maxAge * Day + 1}
-MaxOf(S) == CHOOSE x \in S : \A y \in S : x >= y
 
 (* the full decode grid for the unmodified token, a reduced one for tampered tokens *)
 Decodes(c, o, tok) ==
-    IF o.op = "id"
+    IF IsLong(c)
+      THEN {[name |-> c.name, now |-> c.t, maxAge |-> MaxOf(MaxAges), minVer |-> 1, dcfg |-> c.scfg]}
+    ELSE IF o.op = "id"
       THEN {[name |-> n, now |-> w, maxAge |-> a, minVer |-> m, dcfg |-> d] :
               n \in Names \cup {c.name}, w \in UNION {Nows(c.t, x) : x \in MaxAges}, a \in MaxAges,
               m \in MinVersions, d \in DecCfgs}
@@ -231,7 +240,7 @@ Verdicts(res, want, token) == [res |-> res, want |-> want, len |-> Len(token), s
                                ver |-> IF Len(token) = 0 THEN 0 ELSE GetVersion(token)]
 
 CreateInit ==
-    \E c \in Creates :
+    \E c \in Creates \cup LongCreates :
       /\ sc = [mode |-> "create", cr |-> c, tam |-> NoTam, de |-> DummyDe]
       /\ itok = Create(c, 1).tok
       /\ arb = Create(c, 1).sig.msg
@@ -241,7 +250,7 @@ Scenario ==
     /\ sc.mode = "create"
     /\ LET c == sc.cr
            cr == Create(c, 1) IN
-       \E o \in TamperOps(cr.tok, c.name) :
+       \E o \in (IF IsLong(c) THEN {NoTam} ELSE TamperOps(cr.tok, c.name)) :
          LET token == IF o.op = "shift" THEN ShiftedTok(c.name, cr.tok, o.i) ELSE Apply(cr.tok, o) IN
          \E d \in Decodes(c, o, cr.tok) :
            /\ (o.op # "id" => token # cr.tok)
@@ -260,8 +269,16 @@ ArbInit ==
       /\ itok = <<>>
       /\ arb = <<>>
       /\ exp = ArbVerdicts(sc.de, <<>>)
+(* digit runs longer than any integer conversion limit, followed by "|" or "|a|b" *)
+LongTok(n, k) == [i \in 1..n |-> 49] \o (IF k = 1 THEN <<PIPE>> ELSE <<PIPE, 97, PIPE, 98>>)
+ArbLongInit ==
+    \E n \in LongLens, k \in {1, 2}, dc \in DecCfgs, m \in MinVersions :
+      /\ sc = [mode |-> "arb", cr |-> DummyCr, tam |-> [op |-> "long", i |-> n, b |-> k], de |-> ArbDe(dc, m)]
+      /\ itok = <<>>
+      /\ arb = <<>>
+      /\ exp = ArbVerdicts(sc.de, LongTok(n, k))
 ArbPut ==
-    /\ sc.mode = "arb"
+    /\ sc.mode = "arb" /\ sc.tam.op = "id"
     /\ Len(arb) < ArbLen
     /\ \E b \in ArbAlpha :
          /\ arb' = Append(arb, b)
@@ -269,7 +286,7 @@ ArbPut ==
     /\ UNCHANGED <<sc, itok>>
 
 Init == \/ ("tok" \in Modes /\ CreateInit)
-        \/ ("arb" \in Modes /\ ArbInit)
+        \/ ("arb" \in Modes /\ (ArbInit \/ ArbLongInit))
 Next == Scenario \/ ArbPut
 Spec == Init /\ [][Next]_vars
 
